@@ -751,6 +751,21 @@ func c02FieldTampers(s *c02Seed, rng *rand.Rand) (names []string, out []c02Field
 	add("pub-replaced", func(f *c02Fields) { f.pub = c02DHPub(rng, s.curve) })
 	add("pub-extended", func(f *c02Fields) { f.pub = append(f.pub, 0) })
 	add("pub-shortened", func(f *c02Fields) { f.pub = f.pub[:len(f.pub)-1] })
+	// the boundary between two adjacent byte fields moved: the concatenation of their contents is unchanged, the fields are not
+	for _, n := range []int{1, 2, 8, 31} {
+		add(fmt.Sprintf("pub-sig-boundary-moved-right-%d", n), func(f *c02Fields) {
+			if n < len(f.sig) {
+				f.pub = append(f.pub, f.sig[:n]...)
+				f.sig = f.sig[n:]
+			}
+		})
+		add(fmt.Sprintf("pub-sig-boundary-moved-left-%d", n), func(f *c02Fields) {
+			if n < len(f.pub) {
+				f.sig = append(slices.Clone(f.pub[len(f.pub)-n:]), f.sig...)
+				f.pub = f.pub[:len(f.pub)-n]
+			}
+		})
+	}
 	return
 }
 
